@@ -207,22 +207,29 @@ func TestC03_Pairs(t *testing.T) {
 	rapid.Check(t, func(rt *rapid.T) {
 		v := th.PickVariant(rt, th.AllVariants...)
 		a, b, edits, kind := genPair(rt, rec, v)
-		optI := rapid.IntRange(0, 3).Draw(rt, "opt")
+		optI := rapid.IntRange(0, 5).Draw(rt, "opt")
 		var opts []ygot.DiffOpt
-		single := false
+		single, ignoreAdd := false, false
 		switch optI {
 		case 1:
 			opts = append(opts, &ygot.IgnoreAdditions{})
+			ignoreAdd = true
 		case 2:
 			opts = append(opts, &ygot.DiffPathOpt{MapToSinglePath: true})
 			single = true
+		case 4: // both options, in either order
+			opts = append(opts, &ygot.DiffPathOpt{MapToSinglePath: true}, &ygot.IgnoreAdditions{})
+			single, ignoreAdd = true, true
+		case 5:
+			opts = append(opts, &ygot.IgnoreAdditions{}, &ygot.DiffPathOpt{MapToSinglePath: true})
+			single, ignoreAdd = true, true
 		}
 		va, vb := leafView(a, single, false), leafView(b, single, false)
 		wantUpd, wantDel := map[string]bool{}, map[string]bool{}
 		inEntry := false
 		for id, ib := range vb {
 			ia, ok := va[id]
-			if (!ok && optI != 1) || (ok && ia.ValueCanon() != ib.ValueCanon()) {
+			if (!ok && !ignoreAdd) || (ok && ia.ValueCanon() != ib.ValueCanon()) {
 				wantUpd[id] = true
 				if strings.Contains(id, "[") {
 					inEntry = true
@@ -302,7 +309,7 @@ func TestC03_Pairs(t *testing.T) {
 		}
 
 		// ---- apply Diff (only without IgnoreAdditions, and when ordered lists are untouched) ----
-		if optI != 1 && ordSame {
+		if !ignoreAdd && ordSame {
 			got, err := applyNotifications(v, a, []*gpb.Notification{n})
 			if err != nil {
 				if rec.Excuse(th.F28, th.IsF28(v, b, err)) {
@@ -316,7 +323,7 @@ func TestC03_Pairs(t *testing.T) {
 		}
 
 		// ---- DiffWithAtomic: apply ----
-		if optI != 1 {
+		if !ignoreAdd {
 			ns, err := ygot.DiffWithAtomic(ga, gb, opts...)
 			if err != nil {
 				rt.Fatalf("DiffWithAtomic failed: %v\n%s", err, desc())
